@@ -105,7 +105,7 @@ func runC16(c *core.Ctx, o Options) {
 		"by the outcome of the Unmarshal call and by what the first read of Session.state is known to have returned. Rule J1: parsing is the first event, of the handler's own input, into a fresh builder; the parse-error path " +
 		"contains exactly one Reject send (built from the raw bytes), no state change, no cancellation, and returns true. Rule J2: the not-permitted paths (Heartbeat/TestRequest/ResendRequest when not logged on; " +
 		"Logout outside {SuccessfulLogged, WaitingLogoutAnswer}; Logon in SuccessfulLogged) contain exactly one Reject and leave logged-on-ness unchanged; every parse-ok path of Heartbeat/TestRequest/ResendRequest is " +
-		"behind a logged-on test. Rule J3: the raw-bytes reject takes RefSeqNum from the MsgSeqNum tag of the offending bytes, or names that tag when the number is missing or not numeric, and sends once on each of its paths. " +
+		"behind a logged-on test. Rule J4: the value parsers return their parser's error for every non-nil input (so an unparsable field fails Unmarshal) and ValueByTag's needles are anchored. Rule J3: the raw-bytes reject takes RefSeqNum from the MsgSeqNum tag of the offending bytes, or names that tag when the number is missing or not numeric, and sends once on each of its paths. " +
 		"Decides the structure for all inputs and states; does not decide that later valid messages are processed normally beyond absence of state change and cancellation."
 	s := newSess(c)
 	if s == nil {
@@ -185,6 +185,8 @@ func runC16(c *core.Ctx, o Options) {
 			allowState := kind == "Logout" // the Logout handler re-arms the waiting state; it must not enter SuccessfulLogged
 			if pr := s.refusalProblems(t, allowState); len(pr) > 0 {
 				bad = append(bad, fmt.Sprintf("state %s: %s on path: %s", s.m.SetString(read), strings.Join(pr, "; "), traceStr(t)))
+			} else if countCalls(t, "ValueByTag") == 0 {
+				bad = append(bad, fmt.Sprintf("state %s: the Reject is not built from the raw bytes (no ValueByTag lookup of MsgSeqNum): when the sequence number is missing or not numeric the Reject carries RefSeqNum=0 instead of naming the tag; path: %s", s.m.SetString(read), traceStr(t)))
 			}
 		}
 		ob = c.Ob("J2", hn, "not-permitted-in-this-state paths reject once and keep logged-on-ness", fn.Pos())
@@ -285,6 +287,12 @@ func runC16(c *core.Ctx, o Options) {
 		}
 		// MakeReject puts its seqNum argument into RefSeqNum and its tag into RefTagID
 		s.checkMakeReject("J3")
+	}
+	// J4: what the rejects rely on — unparsable numeric fields make Unmarshal fail, and the raw lookup recognises tag 34 only at a field boundary
+	checkCodecs(c, "J4", map[string]bool{"frombytes": true})
+	if vbt := c.Func("fix", "ValueByTag"); vbt != nil {
+		n := needleCensus(c, "J4", []*ssa.Function{vbt})
+		c.Check(n >= 2, "J4", "ValueByTag", "anchored lookups found", vbt.Pos(), fmt.Sprint(n), "ValueByTag no longer searches with anchored needles")
 	}
 	c.Extra["paths"] = nPaths
 	c.MinObl = 5*5 + 2
@@ -472,6 +480,15 @@ func runC14(c *core.Ctx, o Options) {
 	// Q4: codec identity of fix.String, and accessor pair of TestReqID in the reference package
 	checkStringIdentity(c, "Q4")
 	checkValueExtraction(c, "Q4")
+	// Q5: a TestRequest that arrives while the session's own TestRequest is outstanding is still answered: the all-types
+	// handler (which runs first, C19.H4) restores SuccessfulLogged from WaitingTestReqAnswer before the logged-on test
+	if hs := s.handlers(true, "ALL", "start"); len(hs) == 1 && hs[0].Fn != nil {
+		s.checkRestore("Q5", hs[0].Fn)
+	} else {
+		c.Ob("Q5", "start", "all-types incoming handler restores the logged-on state", fn.Pos()).Fail("no all-types incoming handler is registered when the timers start: in WaitingTestReqAnswer a TestRequest would be rejected instead of answered")
+	}
+	// Q3b: nothing between the handler and the outbound queue runs in another goroutine
+	checkSendChainNoSpawn(c, s, "Q3")
 	c.Extra["paths"] = len(traces)
 	c.MinObl = 7
 }
